@@ -213,7 +213,20 @@ def main():
             rep.violation(f"ssa/{st}/{role}", f"{it['f']['meta']}: {r.get('detail')}", {"function": it["f"], "result": r})
         elif st in ("ground-fail", "sorterr"):
             rep.ground["checked"] += 1; rep.ground["failed"] += 1
-            rep.violation(f"ssa/{st}", f"{it['f']['meta']}: {r.get('detail')}", {"function": r.get("function"), "ssa": r.get("ssa")})
+            sig = f"ssa/{st}"
+            if st == "ground-fail":
+                # role: do all complaints concern blocks that cannot be reached from the entry?
+                import re as _re
+                cfg = ilcheck.view(it["f"])["cfg"]
+                reach = {cfg["entry"]}; changed = True
+                while changed:
+                    changed = False
+                    for e in cfg["edges"]:
+                        if e["head"] in reach and e["tail"] not in reach: reach.add(e["tail"]); changed = True
+                named = {int(x) for x in _re.findall(r"block (\d+)", str(r.get("detail")))}
+                if named and not (named & reach):
+                    sig = "ssa/ground-fail/block unreachable from the entry is left unrenamed"
+            rep.violation(sig, f"{it['f']['meta']}: {r.get('detail')}", {"function": r.get("function"), "ssa": r.get("ssa")})
         elif st == "sat":
             rep.count("sat")
             if not r["reproduced"]:
